@@ -154,7 +154,8 @@ func (t *FnTrans) havocCall(key string, c *ssa.CallCommon, res ssa.Value) {
 			t.set("$alloc", na)
 			continue
 		}
-		t.set(cn, t.newConst(cn+"@h", s))
+		_ = s
+		t.set(cn, t.freshVersion(cn, "@h"))
 	}
 	t.havocAll = true
 	if res != nil {
@@ -288,6 +289,12 @@ func (t *FnTrans) applyContract(ct *Contract, key string, callee *ssa.Function, 
 	for _, en := range ct.Ensures {
 		t.assume(env.evalBool(en.E))
 	}
+	for _, m := range ct.Modifies {
+		if m.E.Op == "call" && m.E.Name == "ghost" {
+			t.checkGlobalInv("call of " + short)
+			break
+		}
+	}
 	if res != nil {
 		switch len(rvals) {
 		case 0:
@@ -330,7 +337,7 @@ func (t *FnTrans) termOfOpt(v Val) string {
 	}
 	if v.P != nil {
 		switch v.P.Kind {
-		case "obj", "cell":
+		case "obj", "cell", "elemrow":
 			return v.P.Ref
 		case "field":
 			f := q("addr$" + v.P.Comp)
@@ -351,9 +358,18 @@ func (t *FnTrans) applyModifies(ct *Contract, env *Env) {
 		t.modItem(m.E, env, func(comp string, sortS string, ref string) {
 			t.comp(comp, sortS)
 			if ref == "" {
-				t.set(comp, t.newConst(comp+"@m", sortS))
+				t.set(comp, t.freshVersion(comp, "@m"))
 			} else {
 				fv := t.newConst(comp+"@mv", arrayElemSort(sortS))
+				if T, ok := t.compT[comp]; ok && !strings.HasPrefix(comp, "E.") {
+					t.assume(t.rangeFact(fv, T))
+				} else if strings.HasPrefix(comp, "E.") {
+					if T, ok := t.compT[comp]; ok {
+						if ii, ok := intInfoOf(T); ok {
+							t.emit(fmt.Sprintf("(assert (forall ((tf$i Int)) (! %s :pattern ((select %s tf$i)))))", ii.inRange(app("select", fv, "tf$i")), fv))
+						}
+					}
+				}
 				t.set(comp, app("store", t.get(comp), ref, fv))
 			}
 		})
@@ -471,6 +487,7 @@ func (t *FnTrans) modPtr(p *Ptr, f func(comp, sort, ref string)) {
 		}
 		return
 	}
+	t.noteCompType(p, p.T)
 	switch p.Kind {
 	case "field", "cell":
 		f(p.Comp, "(Array Int "+t.sortOf(p.T)+")", p.Ref)
@@ -490,6 +507,7 @@ func (t *FnTrans) modPtrWhole(p *Ptr, f func(comp, sort, ref string)) {
 		}
 		return
 	}
+	t.noteCompType(p, p.T)
 	f(p.Comp, "(Array Int "+t.sortOf(p.T)+")", "")
 }
 
